@@ -250,8 +250,47 @@ def run(prog, ctx):
             if ok and cut:
                 mine.append(c)
         if not uses or not mine:
-            ctx.fail("W6", "the comment %s the entry is written" % where_, lp.where,
-                     "no output statement is tied to %s (prefix from the object's comment tag, per physical line)" % fld, key="comment:%s" % fld)
+            # another shape of the same thing: the text is written piece by piece (fputs / fwrite / fputc) inside a loop that looks for
+            # the line breaks, and the object's comment tag is written in that loop as well
+            from sa.dataflow import ReachingDefs as _RD6, origins as _orig6
+            OUT = ("fprintf", "fputs", "fputc", "fwrite", "putc", "fputs_unlocked", "fwrite_unlocked")
+            rd6 = _RD6(f)
+            outs = [c6 for c6 in f.calls(OUT) if c6.within(lp)]
+            def from_field(c6):
+                for a6 in c6.call_args():
+                    if not (a6.j.get("ct") or "").endswith("*"):
+                        continue
+                    for o6 in _orig6(rd6, a6, c6, passthrough={"strdup": 0, "strsep": 0, "strchr": 0, "strtok_r": 0, "memchr": 0}):
+                        n6 = o6[1] if isinstance(o6, tuple) and o6[0] == "expr" else (o6 if not isinstance(o6, tuple) else None)
+                        if n6 is not None and any(x6.k == "MemberExpr" and x6.j.get("member") == fld for x6 in n6.walk()):
+                            return True
+                return False
+            text_outs = [c6 for c6 in outs if from_field(c6)]
+            if not uses or not text_outs:
+                ctx.fail("W6", "the comment %s the entry is written" % where_, lp.where,
+                         "no output statement is tied to %s (prefix from the object's comment tag, per physical line)" % fld, key="comment:%s" % fld)
+                continue
+            c6 = text_outs[0]
+            lloops = [a6 for a6 in c6.ancestors() if a6.k in ("WhileStmt", "ForStmt", "DoStmt") and a6 is not lp and a6.within(lp)]
+            def seeks_newline(lp6):
+                for x6 in lp6.walk():
+                    if x6.k == "CallExpr" and x6.j.get("callee") in ("strchr", "strsep", "strtok_r", "memchr", "strcspn", "strpbrk"):
+                        if any(a7.const_value() == 10 or a7.string_value() == "\n" for a7 in x6.call_args()[1:]):
+                            return True
+                return False
+            lines = [l6 for l6 in lloops if seeks_newline(l6)]
+            tag_outs = [o6 for o6 in outs if lines and o6.within(lines[0]) and any(render(a6).endswith("->comment") or render(a6).endswith(".comment") for a6 in o6.call_args())]
+            okg6, cutg6 = cfg.all_paths_cut(cfg.block_of(c6), lambda lit, b, ii: lit is not None and lit.pol and lit.atom.endswith(fld))
+            pos6 = (where_ == "before" and kb in cfg.reachable(cfg.block_of(c6), avoid_blocks=[hb])) or (where_ == "after" and cfg.block_of(c6) in cfg.reachable(kb, avoid_blocks=[hb]))
+            if lines and tag_outs and okg6 and cutg6 and pos6:
+                ctx.ok("W6", "the comment %s the entry is written" % where_, c6.where,
+                       "written line by line in the loop at line %d, the comment tag in front of every line, %s the key" % (lines[0].line, where_))
+            elif not lloops:
+                ctx.fail("W6", "the comment %s the entry is written" % where_, c6.where, "only the first physical line gets the comment prefix", key="comment:%s" % fld)
+            elif not pos6:
+                ctx.fail("W6", "the comment %s the entry is written" % where_, c6.where, "written on the wrong side of the key", key="comment:%s" % fld)
+            else:
+                ctx.inconclusive("W6", "the comment %s the entry is written" % where_, c6.where, "the text is written in a loop whose line splitting / tag output is not understood")
             continue
         c = mine[0]
         inloop = any(a.k == "WhileStmt" and any(x.k == "CallExpr" and x.j.get("callee") in ("strsep", "strtok_r") for x in a.child("cond").walk()) for a in c.ancestors())
@@ -328,7 +367,7 @@ def run(prog, ctx):
             ctx.fail("W3", "a merged object inherits the base's %s tag" % tag, (ms[0] if ms else m).where, "stores %s" % [render(s) for s in ms], key="merge-tag:%s" % tag)
     L = parser.landmarks(prog)
     st_fn = L.store_fn
-    qs = [s for lhs, rhs, s, kind in query.stores(st_fn) if render(lhs).endswith(".quotes")]
+    qs = [s for lhs, rhs, s, kind in query.stores(st_fn) if render(lhs).endswith(".quotes") and not query.is_slot_init(s)]
     if qs and all(render(s.children[1]) == "quotes" for s in qs):
         ctx.ok("W4", "store() keeps the quotes flag it is given", qs[0].where, render(qs[0]))
     else:
